@@ -458,7 +458,10 @@ def sym_or(*xs):
 
 
 def ite(c, a, b):
-    """If-then-else on values (no fork when c is symbolic)."""
+    """If-then-else on values (no fork when c is symbolic, unless the harness asks for forks with
+    notes['ite_forks'] -- used where an If-term would hide the structure an axiom needs)."""
+    if isinstance(c, SymBool) and _CUR is not None and not _CUR.concrete and _CUR.notes.get('ite_forks'):
+        return a if bool(c) else b
     if isinstance(c, SymBool):
         if isinstance(a, (SymBool, bool, _np.bool_)) and isinstance(b, (SymBool, bool, _np.bool_)):
             return SymBool(z3.If(c.t, liftb(a), liftb(b)))
